@@ -154,8 +154,9 @@ def bracket(ref, ub, lb, sample_size, alpha, n_impl, seed, B=1500):
     u_hi = float(scipy.stats.beta.ppf(1 - 1e-9, k, n_impl - k + 1))
     lo_level = max(0.0, u_lo - 6 * np.sqrt(u_lo * (1 - u_lo) / B))
     hi_level = u_hi + 6 * np.sqrt(max(u_hi * (1 - u_hi), 1.0 / B) / B)
-    lo = float(np.quantile(kl, lo_level)) * (1 - 1e-9)
-    hi = float("inf") if hi_level >= 1 - 1.0 / B else float(np.quantile(kl, hi_level)) * (1 + 1e-9)
+    # an extreme level cannot be estimated from B draws: fall back to the support of the divergence, [0, inf)
+    lo = 0.0 if lo_level < 25.0 / B else float(np.quantile(kl, lo_level)) * (1 - 1e-9)
+    hi = float("inf") if hi_level > 1 - 25.0 / B else float(np.quantile(kl, hi_level)) * (1 + 1e-9)
     return lo, hi
 
 
